@@ -118,12 +118,34 @@ def class_version(rng):
     return base
 
 
+def dotted_numeric(rng):
+    """plain dotted numbers, with the degenerate spellings a fast path would take for the same number: empty components
+    (consecutive or trailing full stops), leading zeros, numeric revisions"""
+    comps = [rng.choice(('1', '2', '02', '10', '0', '')) for _ in range(rng.choice((1, 2, 2, 3, 3, 4)))]
+    u = rng.choice(('1', '1', '2', '01')) + ''.join('.' + c for c in comps)
+    if rng.random() < 0.3:
+        u = rng.choice(('0:', '1:')) + u
+    if rng.random() < 0.4:
+        u += '-' + rng.choice(('0', '1', '01', '2', '10'))
+    return u
+
+
+def letters_mixed(rng):
+    """letters of both cases, digits with leading zeros and the three punctuation characters, around a common stem"""
+    u = '1.0' + ''.join(rng.choice(('a', 'B', 'Z', 'b', 'alpha', 'Beta', 'rc', 'Zeta', '~', '+', '.', '-', '0', '1', '01', '10', '9')) for _ in range(rng.choice((1, 2, 2, 3))))
+    return u
+
+
 def lists(rng, n):
     for _ in range(n):
         k = rng.choice((0, 1, 2, 2, 3, 3, 3, 4, 4, 5, 6))
         r = rng.random()
-        if r < 0.6:
+        if r < 0.4:
             vs = [class_version(rng) for _ in range(k)]
+        elif r < 0.5:
+            vs = [dotted_numeric(rng) for _ in range(k)]
+        elif r < 0.6:
+            vs = [letters_mixed(rng) for _ in range(k)]
         elif r < 0.9:
             vs = [rng.choice(POOL) for _ in range(k)]
         else:
